@@ -64,12 +64,17 @@ Kind(s) ==
 (* Slots and slot classes *)
 
 Slots(t) == 1..(Len(Toks[t]) + 1)
-(* the kind of the token that follows slot j.  A comment before `:` is handed by the parser to the
-   annotation after it, so for `:` the kind includes the token after it. *)
+(* the kind of the token that follows slot j.  A comment before `:` or - outside expressions - `,`
+   is handed by the parser to the annotation / list element after it, so for these two the kind
+   includes the token after.  (In expression lists the comment goes to the next expression as a
+   whole, whatever it starts with.) *)
+IsExprProduction(p) == Len(p) >= 5 /\ SubSeq(p, 1, 5) = "expr."
 NextKind(t, j) ==
   IF j > Len(Toks[t]) THEN "EOF"
-  ELSE IF Toks[t][j].s = ":" /\ j < Len(Toks[t]) THEN ":" \o Kind(Toks[t][j + 1].s)
-  ELSE Kind(Toks[t][j].s)
+  ELSE LET s == Toks[t][j].s
+       IN  IF j < Len(Toks[t]) /\ (s = ":" \/ (s = "," /\ ~IsExprProduction(Toks[t][j].p)))
+           THEN s \o Kind(Toks[t][j + 1].s)
+           ELSE Kind(s)
 Production(t, j) == IF j <= Len(Toks[t]) THEN Toks[t][j].p ELSE "module"
 
 ClassId(prod, next, ck) == prod \o "|" \o next \o "|" \o ck
@@ -85,6 +90,15 @@ ImportOf(t, j) ==
   IF j <= Len(Toks[t]) /\ Toks[t][j].p \in ImportProductions
   THEN Cardinality({i \in 1..j : Toks[t][i].s = "import" /\ Toks[t][i].p = "import"})
   ELSE 0
+
+(* the imported member a comment in slot j is attached to ("" = none): inside the braces of an import
+   a comment goes to the member that follows it (parse_upper_id_with_comments); everywhere else on
+   the line it goes to the import as a whole *)
+MemberOf(t, j) ==
+  IF ImportOf(t, j) = 0 THEN ""
+  ELSE IF Toks[t][j].p = "import.member" THEN Toks[t][j].s
+  ELSE IF Toks[t][j].s = "," /\ j < Len(Toks[t]) /\ Toks[t][j + 1].p = "import.member" THEN Toks[t][j + 1].s
+  ELSE ""
 
 RECURSIVE Concat(_)
 Concat(ss) == IF ss = <<>> THEN "" ELSE Head(ss) \o Concat(Tail(ss))
@@ -111,21 +125,30 @@ StrLess(a, b) ==
 (* position of import m's group after sorting: imports of one module share it (they are merged) *)
 GroupRank(names, m) == Cardinality({k \in 1..Len(names) : StrLess(names[k], names[m])})
 
-(* (a) cm: the comments of the input in input order, each with field imp (0 = not on an import line).
-   The result is the sequence of indexes into cm in the order required of the output. *)
+(* (a) cm: the comments of the input in input order, each with fields imp (number of the import line
+   it is attached to, 0 = none) and mem (the imported member it is attached to, "" = the line).
+   The result is the sequence of indexes into cm in the order required of the output:
+   - comments of import lines first, by the sorted position of the line's module; lines of one module
+     are merged: first the comments of the lines themselves in input order, then the comments of the
+     members in the (byte) order of the member names, which is how the printer sorts the members;
+   - all other comments in input order. *)
 ExpectedOrder(cm, names) ==
   LET Before(i, j) ==
         IF cm[i].imp # 0 /\ cm[j].imp # 0
         THEN LET ri == GroupRank(names, cm[i].imp)
                  rj == GroupRank(names, cm[j].imp)
-             IN  IF ri # rj THEN ri < rj ELSE i < j
+             IN  IF ri # rj THEN ri < rj
+                 ELSE IF cm[i].mem = "" \/ cm[j].mem = ""
+                      THEN IF (cm[i].mem = "") # (cm[j].mem = "") THEN cm[i].mem = "" ELSE i < j
+                 ELSE IF cm[i].mem # cm[j].mem THEN StrLess(cm[i].mem, cm[j].mem)
+                 ELSE i < j
         ELSE IF (cm[i].imp # 0) # (cm[j].imp # 0) THEN cm[i].imp # 0
         ELSE i < j
   IN  SortSeq([i \in 1..Len(cm) |-> i], Before)
 
 -----------------------------------------------------------------------------
 (* (c) The verdict on one observation.
-   rec.cm   : comments of x in input order: [k, ws, ins, slot, imp, cls]
+   rec.cm   : comments of x in input order: [k, ws, ins, slot, imp, mem, cls]
    rec.imps : printed module names of x's imports
    rec.out  : comments of F(x) in output order: [k, ws]
    rec.idem : F(F(x)) = F(x);  rec.errs : number of syntax errors of F(x);  rec.crash : optional
